@@ -430,6 +430,163 @@ theorem emitQop_active {m m' : Mem} {g : List Nat} {tgt : MTgt} {cs : List PCmd}
       simp [bindHandle, this]
 
 
+/-! ## EPR operations: replay of recorded register events -/
+
+/-- number of registers held after the events, starting with `n` held (`none`: a release of a
+register that is not held) -/
+def heldLen : Nat → List EprEv → Option Nat
+  | n, [] => some n
+  | n, .take :: es => heldLen (n + 1) es
+  | n, .rel p :: es => if p < n then heldLen (n - 1) es else none
+
+/-- largest number of registers held at any point -/
+def peakEvs : Nat → List EprEv → Nat
+  | n, [] => n
+  | n, .take :: es => max n (peakEvs (n + 1) es)
+  | n, .rel _ :: es => max n (peakEvs (n - 1) es)
+
+theorem getD_set_true_iff {a : List Bool} {i j : Nat} (hi : i < a.length) :
+    (a.set i true).getD j false = true ↔ (j = i ∨ a.getD j false = true) := by
+  by_cases e : i = j
+  · subst e; rw [getD_set_self hi]; simp
+  · rw [getD_set_ne e]
+    constructor
+    · intro h; exact Or.inr h
+    · intro h; rcases h with h | h
+      · exact absurd h.symm e
+      · exact h
+
+theorem getD_set_false_iff {a : List Bool} {i j : Nat} :
+    (a.set i false).getD j false = true ↔ (j ≠ i ∧ a.getD j false = true) := by
+  by_cases e : i = j
+  · subst e
+    constructor
+    · intro h
+      by_cases hl : i < a.length
+      · rw [getD_set_self hl] at h; cases h
+      · have : (a.set i false).length ≤ i := by simpa using Nat.le_of_not_lt hl
+        simp [List.getD, List.getElem?_eq_none this] at h
+    · intro h; exact absurd rfl h.1
+  · rw [getD_set_ne e]
+    constructor
+    · intro h; exact ⟨fun e' => e e'.symm, h⟩
+    · intro h; exact h.2
+
+/-- the registers an EPR operation holds, on top of the pool `base` it started from -/
+structure EprInv (base : List Bool) (held : List Nat) (m : Mem) : Prop where
+  act : ∀ i, m.active.getD i false = true ↔ (base.getD i false = true ∨ i ∈ held)
+  len : m.active.length = base.length
+  disj : ∀ i ∈ held, base.getD i false = false
+  nodup : held.Nodup
+
+theorem getD_false_of_true_false {a : List Bool} {i : Nat} (h : a.getD i true = false) : a.getD i false = false := by
+  have hl := getD_true_false_lt h
+  simp [List.getD, List.getElem?_eq_getElem hl] at h ⊢; exact h
+
+theorem emitEprH_inv {base : List Bool} : ∀ (evs : List EprEv) (m : Mem) (held : List Nat) (m' : Mem) (held' : List Nat),
+    EprInv base held m → emitEprH m held evs = .ok (m', held') →
+    EprInv base held' m' ∧ heldLen held.length evs = some held'.length
+  | [], m, held, m', held', hinv, h => by
+    simp [emitEprH] at h; obtain ⟨rfl, rfl⟩ := h; exact ⟨hinv, rfl⟩
+  | .take :: es, m, held, m', held', hinv, h => by
+    simp only [emitEprH] at h
+    split at h
+    · cases h
+    · rename_i m1 i h1
+      have s1 := takeReg_spec h1
+      have hil := getD_true_false_lt s1.1
+      have hif := getD_false_of_true_false s1.1
+      have hnb : base.getD i false = false := by
+        cases hb : base.getD i false with
+        | false => rfl
+        | true => have := (hinv.act i).mpr (Or.inl hb); rw [hif] at this; cases this
+      have hnh : i ∉ held := by
+        intro hm; have := (hinv.act i).mpr (Or.inr hm); rw [hif] at this; cases this
+      have hinv1 : EprInv base (held ++ [i]) m1 := by
+        refine ⟨?_, by rw [s1.2.1]; simpa using hinv.len, ?_, ?_⟩
+        · intro j
+          rw [s1.2.1, getD_set_true_iff hil, hinv.act j]
+          simp only [List.mem_append, List.mem_singleton]
+          constructor
+          · rintro (h | h | h)
+            · exact Or.inr (Or.inr h)
+            · exact Or.inl h
+            · exact Or.inr (Or.inl h)
+          · rintro (h | h | h)
+            · exact Or.inr (Or.inl h)
+            · exact Or.inr (Or.inr h)
+            · exact Or.inl h
+        · intro j hj
+          simp only [List.mem_append, List.mem_singleton] at hj
+          rcases hj with hj | rfl
+          · exact hinv.disj j hj
+          · exact hnb
+        · rw [List.nodup_append]
+          refine ⟨hinv.nodup, by simp, ?_⟩
+          intro a ha b hb e
+          simp at hb; subst hb; subst e; exact hnh ha
+      have := emitEprH_inv es m1 (held ++ [i]) m' held' hinv1 h
+      refine ⟨this.1, ?_⟩
+      simpa [heldLen] using this.2
+  | .rel p :: es, m, held, m', held', hinv, h => by
+    simp only [emitEprH] at h
+    split at h
+    · cases h
+    · rename_i i hp
+      split at h
+      · cases h
+      · rename_i m1 h1
+        have r1 := release_spec h1
+        have hmem : i ∈ held := List.mem_of_getElem? hp
+        have hpl : p < held.length := by
+          by_cases hpl : p < held.length
+          · exact hpl
+          · simp [List.getElem?_eq_none (Nat.le_of_not_lt hpl)] at hp
+        have hinv1 : EprInv base (held.erase i) m1 := by
+          refine ⟨?_, by rw [r1.2.1]; simpa using hinv.len, ?_, hinv.nodup.erase i⟩
+          · intro j
+            rw [r1.2.1, getD_set_false_iff, hinv.act j, hinv.nodup.mem_erase_iff]
+            constructor
+            · rintro ⟨hne, h | h⟩
+              · exact Or.inl h
+              · exact Or.inr ⟨hne, h⟩
+            · rintro (hbj | ⟨hne, hjh⟩)
+              · refine ⟨?_, Or.inl hbj⟩
+                intro e
+                rw [e, hinv.disj i hmem] at hbj; cases hbj
+              · exact ⟨hne, Or.inr hjh⟩
+          · intro j hj
+            exact hinv.disj j (List.mem_of_mem_erase hj)
+        have := emitEprH_inv es m1 (held.erase i) m' held' hinv1 h
+        refine ⟨this.1, ?_⟩
+        have hlen : (held.erase i).length = held.length - 1 := List.length_erase_of_mem hmem
+        simp only [heldLen, hpl, if_true]
+        rw [← hlen]; exact this.2
+
+theorem eprInv_base (m : Mem) : EprInv m.active [] m :=
+  ⟨fun i => (by simp), rfl, fun i hi => (by cases hi), List.nodup_nil⟩
+
+theorem eprInv_nil_eq {base : List Bool} {m : Mem} (h : EprInv base [] m) : m.active = base := by
+  apply List.ext_getElem h.len
+  intro j h1 h2
+  have := h.act j
+  simp only [List.not_mem_nil, or_false] at this
+  simp only [List.getD, List.getElem?_eq_getElem h1, List.getElem?_eq_getElem h2, Option.getD_some] at this
+  cases ha : m.active[j] <;> cases hb : base[j] <;> simp_all
+
+/-- a balanced EPR operation gives back every register it takes -/
+theorem emitEprH_balanced {m m' : Mem} {held' : List Nat} {evs : List EprEv}
+    (hb : heldLen 0 evs = some 0) (h : emitEprH m [] evs = .ok (m', held')) : m'.active = m.active := by
+  obtain ⟨hinv, hl⟩ := emitEprH_inv evs m [] m' held' (eprInv_base m) h
+  simp only [List.length_nil] at hl
+  rw [hb] at hl
+  have : held' = [] := by
+    cases held' with
+    | nil => rfl
+    | cons x xs => simp at hl
+  subst this
+  exact eprInv_nil_eq hinv
+
 /-! ## the invariant of C14 -/
 
 /-- Operations that are *completed* when `emit` returns. The only host statement that is not is
@@ -448,6 +605,7 @@ def Completed : Host → Prop
   | .foreach _ _ body => Completed body
   | .loopUntil _ body _ _ cl => Completed body ∧ Completed cl
   | .tryUntil _ body => Completed body
+  | .epr evs => heldLen 0 evs = some 0
 
 theorem bindHandle_active (m : Mem) (r : Reg) (b : Bool) : (bindHandle m r b).active = m.active := rfl
 
@@ -575,6 +733,14 @@ theorem emit_active : ∀ (op : Host) (m m' : Mem) (cs : List PCmd),
     intro m m' cs hc h
     simp only [emit] at h
     exact ih _ _ _ hc h
+  | epr evs =>
+    intro m m' cs hc h
+    simp only [emit] at h
+    split at h
+    · cases h
+    · rename_i m1 held' h1
+      cases h
+      exact emitEprH_balanced hc h1
 
 /-- `newReg` takes exactly one register out of the pool (and keeps it) -/
 theorem emit_newReg_active {m m' : Mem} {v : Int} {cs : List PCmd}
@@ -693,6 +859,7 @@ def need : Host → Nat
   | .foreach _ _ body => 1 + need body
   | .loopUntil _ body ef _ cl => 1 + max (need body) (max ef.tmp (need cl))
   | .tryUntil _ body => need body
+  | .epr evs => peakEvs 0 evs
 
 /-- "does not fail for lack of a register" -/
 def NoReg {α : Type} (x : Except BuildError α) : Prop := ∀ e, x = .error e → e ≠ .noRegister
@@ -971,6 +1138,48 @@ theorem emitQop_noReg (m : Mem) (g : List Nat) (tgt : MTgt) (h : tgt.need ≤ fr
     · exact NoReg.ok _
 
 
+theorem free_set_false : ∀ (l : List Bool) (i : Nat), l.getD i false = true →
+    free (l.set i false) = free l + 1
+  | [], i, h => by simp at h
+  | b :: bs, 0, h => by simp at h; subst h; simp [free]; omega
+  | b :: bs, i + 1, h => by
+    have := free_set_false bs i (by simpa using h)
+    simp [free, List.set]; omega
+
+theorem emitEprH_noReg : ∀ (evs : List EprEv) (m : Mem) (held : List Nat),
+    peakEvs held.length evs ≤ held.length + free m.active → NoReg (emitEprH m held evs)
+  | [], m, held, _ => by simp only [emitEprH]; exact NoReg.ok _
+  | .take :: es, m, held, h => by
+    simp only [emitEprH]
+    simp only [peakEvs] at h
+    by_cases hf : 0 < free m.active
+    · obtain ⟨m1, i, h1⟩ := takeReg_ok hf
+      rw [h1]; simp only
+      have f1 := free_after_take h1
+      exact emitEprH_noReg es m1 (held ++ [i]) (by simp; omega)
+    · -- the peak is at least one more than what is held
+      have : held.length + 1 ≤ peakEvs (held.length + 1) es := by
+        cases es with
+        | nil => simp [peakEvs]
+        | cons e es' => cases e <;> simp [peakEvs] <;> omega
+      omega
+  | .rel p :: es, m, held, h => by
+    simp only [emitEprH]
+    simp only [peakEvs] at h
+    split
+    · exact NoReg.err (by simp)
+    · rename_i i hp
+      split
+      · rename_i e he; exact NoReg.err (release_noReg _ _ _ he)
+      · rename_i m1 h1
+        have r1 := release_spec h1
+        have hmem : i ∈ held := List.mem_of_getElem? hp
+        have hlen : (held.erase i).length = held.length - 1 := List.length_erase_of_mem hmem
+        have hpos : 0 < held.length := List.length_pos_of_mem hmem
+        refine emitEprH_noReg es m1 (held.erase i) ?_
+        rw [hlen, r1.2.1, free_set_false _ _ r1.1]
+        omega
+
 theorem arrLen_noReg (m : Mem) (a : Nat) : NoReg (arrLen m a) := by
   intro e he; unfold arrLen at he; split at he <;> cases he; simp
 
@@ -1095,6 +1304,14 @@ theorem emit_noReg : ∀ (op : Host) (m : Mem), Completed op → need op ≤ fre
     intro m hc h
     simp only [emit]
     exact ih _ hc h
+  | epr evs =>
+    intro m _ h
+    simp only [need] at h
+    simp only [emit]
+    split
+    · rename_i e he
+      exact NoReg.err (emitEprH_noReg evs m [] (by simpa using h) _ he)
+    · exact NoReg.ok _
 
 /-! ### flush needs one register (the array-initialisation loop) -/
 
